@@ -563,10 +563,15 @@ pub fn oracle(c: &Case, st: &mut Stats) -> Result<(), String> {
         expect_err("mla_reader_config_add_private_key(config, NULL)", (lib.reader_config_add_private_key)(rcfg, std::ptr::null()))?;
         expect_err("mla_reader_config_new(NULL)", (lib.reader_config_new)(std::ptr::null_mut()))?;
     }
+    // the C interface takes one candidate key per call: a stranger's key is added before or after the recipient's
     let sk = pem_priv(&keys.recipients[0].to_bytes());
-    let s = (lib.reader_config_add_private_key)(rcfg, sk.as_ptr());
-    if s != 0 {
-        return Err(format!("mla_reader_config_add_private_key failed: {s:#x}"));
+    let decoy = pem_priv(&util::seed32(c.seed as u64, "c20-decoy", 0));
+    let order: [&CString; 2] = if c.seed % 2 == 0 { [&decoy, &sk] } else { [&sk, &decoy] };
+    for k in order {
+        let s = (lib.reader_config_add_private_key)(rcfg, k.as_ptr());
+        if s != 0 {
+            return Err(format!("mla_reader_config_add_private_key failed: {s:#x}"));
+        }
     }
     let new_source = || Box::new(Source { data: sink.buf.clone(), pos: 0, sched: if c.rsched.is_empty() { vec![1] } else { c.rsched.clone() }, calls: 0, writers: BTreeMap::new(), decline: c.decline, seen: 0, wsched: if c.wsched.is_empty() { vec![7] } else { c.wsched.clone() }, read_fail_at: None, seek_fail_at: None, seeks: 0, writer_fail: None, file_cb_fail_at: None, injected: 0 });
     // ---- mla_roarchive_info on the collected archive
